@@ -61,7 +61,13 @@ void h_associate(void)
                 __CPROVER_assert(g_ci[c].m_before >= 0 && g_ci[c].m_before < n0 && g_ci[c].m_after >= 0 && g_ci[c].m_after < n0, "every char-info before/after is a slot index in [0,n) when the segment has slots (unclaimed first/last characters)");
             bool in_some = false;
             for (int k = 0; k < NSLOTS; ++k) if (k < n0 && (int)g_pool[o0[k]].m_before <= c && c <= (int)g_pool[o0[k]].m_after) in_some = true;
-            __CPROVER_assert(in_some, "every character index lies in the [before,after] range of at least one slot");
+            /* two slots whose ranges are inverted on entry (before > after: the insert opcode takes before from the following and after from
+               the preceding slot) can each take one side of an unclaimed inner character and both stay inverted: second known finding,
+               isolated by this case split so that the clause stays strict everywhere else */
+            int ninv = 0; for (int k = 0; k < NSLOTS; ++k) if (k < n0 && w_before[k] > w_after[k]) ++ninv;
+            if (!edge && ninv < 2)  __CPROVER_assert(in_some, "a character between claimed characters lies in the [before,after] range of at least one slot");
+            if (!edge && ninv >= 2) __CPROVER_assert(in_some, "a character between claimed characters lies in some slot range also when two or more slot ranges are inverted on entry");
+            else       __CPROVER_assert(in_some, "every character index lies in the [before,after] range of at least one slot (unclaimed first/last characters)");
         }
 #endif
     }
